@@ -158,6 +158,7 @@ func (p Plan) Validate(ctx context.Context, n int, pb ProgressBar) (err error) {
 		})
 	}
 
+	var feedErr error
 loop:
 	for _, s := range p {
 		if !s.isFileSeed() {
@@ -166,11 +167,17 @@ loop:
 		}
 		select {
 		case <-ctx.Done():
+			// Either a worker failed (its error is returned below) or the
+			// operation was cancelled before all segments were handed out
+			feedErr = Interrupted{}
 			break loop
 		case in <- Job{s, fileMap[s.source.FileName()]}:
 		}
 	}
 	close(in)
 
-	return g.Wait()
+	if err := g.Wait(); err != nil {
+		return err
+	}
+	return feedErr
 }
